@@ -6,12 +6,14 @@ import JsonC.Lemmas.TokenerXRej2
 namespace JsonC.Tokener
 open JsonC Rfc8259 Rfc8259X
 
-/-- strict mode: if `x` contains an extension, the run over its text stops on a syntax error -/
+/-- strict mode: if `x` contains an extension, the run over its text, followed by a byte that can
+follow a value (a number ends only there), stops on a syntax error -/
 def XRej (lc : Libc) (x : XDoc) : Prop :=
   ∀ (t : Tok) (l : Loc) (cur : JVal) (rest : List Level), WF t → t.stack = ⟨.eatws, .start, cur, none⟩ :: rest →
     NoVal t → t.hs = 0 → l.num = none → t.strict = true → x.ok = true → x.erase.intsFit = true →
     x.erase.keysNulFree = true → rest.length + 1 + x.erase.nest ≤ t.maxDepth → x.plain = false →
-    ∀ (c : UInt8) (off : Nat) (rs : Bytes), ErrStop (run lc t l c off (x.text ++ rs))
+    ∀ (nb : UInt8), Follow nb → (nb = 0 → rest = []) →
+    ∀ (c : UInt8) (off : Nat) (rs : Bytes), ErrStop (run lc t l c off (x.text ++ nb :: rs))
 
 /-- a gap with a comment starts with white space or '/' -/
 theorem gap_nonplain_head (g : Gap) (hnp : g.plain = false) (X : Bytes) :
@@ -31,10 +33,12 @@ theorem xchild_rej (lc : Libc) (hl : LibcSpec lc) (d : XDoc) (ihd : XRej lc d) (
     (hsv : (sv = .array ∧ pst = .arrayAdd) ∨ (sv = .arrayAfterSep ∧ pst = .arrayAdd) ∨ (sv = .objectValue ∧ pst = .objectValueAdd))
     (cur : JVal) (nm : Option Bytes) (rest : List Level) (hs : t.stack = ⟨.eatws, sv, cur, nm⟩ :: rest)
     (hpar : GapPos .finish (⟨pst, sv, cur, nm⟩ :: rest))
-    (hok : d.ok = true) (hfit : d.erase.intsFit = true) (hknf : d.erase.keysNulFree = true)
+    (hok : d.ok = true) (hg2 : g2.ok = true) (hfit : d.erase.intsFit = true) (hknf : d.erase.keysNulFree = true)
     (hdepth : rest.length + 2 + d.erase.nest ≤ t.maxDepth)
-    (hnp : (g1.plain && d.plain && g2.plain) = false) (X : Bytes) (c : UInt8) (off : Nat) :
-    ErrStop (run lc t l c off (g1.text ++ (d.text ++ (g2.text ++ X)))) := by
+    (hnp : (g1.plain && d.plain && g2.plain) = false) (s : UInt8) (hsep : s = 44 ∨ s = 93 ∨ s = 125) (X' : Bytes)
+    (c : UInt8) (off : Nat) :
+    ErrStop (run lc t l c off (g1.text ++ (d.text ++ (g2.text ++ s :: X')))) := by
+  generalize hX : s :: X' = X
   have hgp : GapPos sv rest := by
     rcases hsv with ⟨h, _⟩ | ⟨h, _⟩ | ⟨h, _⟩ <;> subst h
     · exact .array _
@@ -50,8 +54,10 @@ theorem xchild_rej (lc : Libc) (hl : LibcSpec lc) (d : XDoc) (ihd : XRej lc d) (
     cases h2 : d.plain with
     | false =>
       rw [e1, hpush, ← e1]
+      obtain ⟨nb, rs', htl, hfol, hnz⟩ := xfollow_head g2 hg2 s hsep X'
+      rw [← hX, htl]
       exact ihd { t with stack := freshLevel :: ⟨pst, sv, cur, nm⟩ :: rest } l .null (⟨pst, sv, cur, nm⟩ :: rest) hwfp rfl hv hhs hl0
-        hst hok hfit hknf (by simp only [List.length_cons]; omega) h2 _ _ _
+        hst hok hfit hknf (by simp only [List.length_cons]; omega) h2 nb hfol (fun h => absurd h hnz) _ _ _
     | true =>
       have h3 : g2.plain = false := by simpa [h1, h2] using hnp
       obtain ⟨nb, rs', htl, hfol, hnz⟩ := gap_nonplain_head g2 h3 X
@@ -97,18 +103,22 @@ theorem xelems_rej (lc : Libc) (hl : LibcSpec lc) (es : List (Gap × XDoc × Gap
       · exact Or.inr (Or.inl ⟨h, rfl⟩)
     have ihd : XRej lc d := ih (g1, d, g2) (by simp)
     -- the text after this element, whatever it is
-    obtain ⟨X, hX⟩ : ∃ X, intercalateB 44 (xelemsText ((g1, d, g2) :: r)) ++ (trailText tr ++ 93 :: rs) =
-        g1.text ++ (d.text ++ (g2.text ++ X)) := by
+    obtain ⟨s, hsep, X, hX⟩ : ∃ s, (s = 44 ∨ s = 93 ∨ s = 125) ∧ ∃ X,
+        intercalateB 44 (xelemsText ((g1, d, g2) :: r)) ++ (trailText tr ++ 93 :: rs) =
+        g1.text ++ (d.text ++ (g2.text ++ s :: X)) := by
       cases r with
-      | nil => exact ⟨trailText tr ++ 93 :: rs, by simp [intercalateB, xelemsText]⟩
+      | nil =>
+        cases tr with
+        | none => exact ⟨93, by simp, rs, by simp [intercalateB, xelemsText, trailText]⟩
+        | some g' => exact ⟨44, by simp, g'.text ++ 93 :: rs, by simp [intercalateB, xelemsText, trailText]⟩
       | cons e2 r2 =>
         obtain ⟨a1, a2, a3⟩ := e2
-        exact ⟨44 :: (intercalateB 44 (xelemsText ((a1, a2, a3) :: r2)) ++ (trailText tr ++ 93 :: rs)), by simp [intercalateB, xelemsText]⟩
+        exact ⟨44, by simp, intercalateB 44 (xelemsText ((a1, a2, a3) :: r2)) ++ (trailText tr ++ 93 :: rs), by simp [intercalateB, xelemsText]⟩
     cases htri : (g1.plain && d.plain && g2.plain) with
     | false =>
       rw [hX]
       exact xchild_rej lc hl d ihd g1 g2 t l hwf hv hhs hl0 hst sv .arrayAdd hsv' (.arr xs) none rest hs (.finishInArray _ _ _ _)
-        hok.1.1.2 hfit.1 hknf.1 (by omega) htri X c off
+        hok.1.1.2 hok.1.2 hfit.1 hknf.1 (by omega) htri s hsep X c off
     | true =>
       obtain ⟨e1, e2, e3, hdok⟩ := plain_triple_text g1 g2 d hok.1.1.2 htri
       have hrestnp : (xelemsPlain r && tr.isNone) = false := by
